@@ -1,9 +1,10 @@
 From Coq Require Import ZArith List String Bool.
-From FV Require Import Base.Ser Base.Res C12.Model.
+From FV Require Import Base.Ser Base.Res C12.Model C12.ModelSpec.
 Import ListNotations.
 Open Scope string_scope.
 Definition reg : registry := [
   ("interp", run2 interp);
-  ("generalize", run2 generalize)
+  ("generalize", run2 generalize);
+  ("specialize", run3 specialize_entry)
 ].
 Definition fv_entry := dispatch reg.
